@@ -499,7 +499,7 @@ SUBCHECKS = [
                   "sum_k r_f(k)P(k->y) vs a fresh level-(l-1) chain on a pre-refinement copy of the grid, mass sent "
                   "to zero vs quadrature, black-box kernel via coupling_state with scripted uniforms, even "
                   "increments copied, coarse coefficient/drift frozen, shared Brownian increment (scripted deque)",
-             strategy=strat_1d, budget={"quick": 240, "thorough": 2400}, shards={"quick": 16, "thorough": 16}),
+             strategy=strat_1d, budget={"quick": 720, "thorough": 2400}, shards={"quick": 16, "thorough": 16}),
     SubCheck("coupling-copula", body_copula, classify_copula,
              rule="copula chains d=2,3 (finite variation, small level-0 grids) at level 1: black-box kernel of "
                   "every fine state (scripted uniforms, measured by bisection) vs the conditional law of the "
@@ -509,5 +509,5 @@ SUBCHECKS = [
     SubCheck("coupling-sde-drifts", body_sde, classify_sde,
              rule="CouplingSDE over a 1-d driver, levels 1..2: mc_drift_2h = drift of a fresh level-(l-1) chain, "
                   "mc_drift_h = level-l chain drift, epsilon = h^beta, deterministic path = x0 for both components",
-             strategy=strat_sde, budget={"quick": 320, "thorough": 3200}, shards={"quick": 16, "thorough": 16}),
+             strategy=strat_sde, budget={"quick": 960, "thorough": 3200}, shards={"quick": 16, "thorough": 16}),
 ]
